@@ -635,6 +635,21 @@ func c16Suite(t *testing.T, env *verifx.Env, res *verifx.Result, suffix string, 
 	}
 	plan := map[string]*c16OutCase{}
 	c16AddOutputTools(s, plan)
+	// a receiving middleware (metrics, auditing, rate limiting ...) may take its time with a result: when
+	// asked to, this one holds the result of the next tools/call until the harness lets go
+	holdNext := false
+	held, letGo := make(chan struct{}), make(chan struct{})
+	s.AddReceivingMiddleware(func(next MethodHandler) MethodHandler {
+		return func(ctx context.Context, method string, req Request) (Result, error) {
+			res, err := next(ctx, method, req)
+			if method == "tools/call" && holdNext {
+				holdNext = false
+				held <- struct{}{}
+				<-letGo
+			}
+			return res, err
+		}
+	})
 	ct, st := NewInMemoryTransports()
 	ss, err := s.Connect(ctx, st, nil)
 	if err != nil {
@@ -811,6 +826,60 @@ func c16Suite(t *testing.T, env *verifx.Env, res *verifx.Result, suffix string, 
 		}
 		plan[oc.tool] = oc
 		resT, callErr := cs.CallTool(ctx, &CallToolParams{Name: oc.tool, Arguments: json.RawMessage(`{}`)})
+		c16JudgeOutput(out, idx, oc, want, resT, callErr, desc)
+	}
+	if suffix != "" {
+		return
+	}
+	// ---------- the same outputs with the result held in a middleware while other typed tool calls
+	// (outputs of every shape and length) run to completion: a result is a value of its own
+	heldCases := env.NewCases(res, "output-types-x-returns/result-held-while-other-calls-complete")
+	disturbers := []*c16OutCase{}
+	for _, d := range c16OutCases() {
+		if !d.shared && !d.content && c16ExpectedOutput(d) != "ERR" && c16ExpectedOutput(d) != "" {
+			disturbers = append(disturbers, d)
+		}
+	}
+	for _, oc := range c16OutCases() {
+		if oc.shared {
+			continue
+		}
+		idx, mine := heldCases.Next()
+		if !mine {
+			continue
+		}
+		want := c16ExpectedOutput(oc)
+		desc := func() string { return oc.name + ", result held in a middleware while other calls complete" }
+		plan[oc.tool] = oc
+		holdNext = true
+		type ret struct {
+			res *CallToolResult
+			err error
+		}
+		done := make(chan ret, 1)
+		go func() {
+			r, err := cs.CallTool(ctx, &CallToolParams{Name: oc.tool, Arguments: json.RawMessage(`{}`)})
+			done <- ret{r, err}
+		}()
+		select {
+		case <-held:
+			for _, d := range disturbers {
+				plan[d.tool] = d
+				cs.CallTool(ctx, &CallToolParams{Name: d.tool, Arguments: json.RawMessage(`{}`)})
+			}
+			letGo <- struct{}{}
+		case r := <-done:
+			// (refused before it reached the middleware's hold)
+			holdNext = false
+			done <- r
+		}
+		r := <-done
+		c16JudgeOutput(heldCases, idx, oc, want, r.res, r.err, desc)
+	}
+}
+
+func c16JudgeOutput(out *verifx.Cases, idx int, oc *c16OutCase, want string, resT *CallToolResult, callErr error, desc func() string) {
+	for range 1 {
 		switch {
 		case want == "ERR":
 			if callErr == nil && !resT.IsError {
